@@ -16,11 +16,11 @@ Fixpoint gen_from (seed : N) (i : N) (n : nat) : list byte :=
   end.
 Definition gen_stream (seed len : Z) : list byte := gen_from (Z.to_N seed) 0%N (Z.to_nat len).
 
-(* a byte string returned by the implementation: a slice of the stream, or raw bytes *)
-Inductive data := DS (start len : Z) | DH (hex : string).
+(* a byte string returned by the implementation: a concatenation of slices of the stream, or raw bytes *)
+Inductive data := DS (parts : list (Z * Z)) | DH (hex : string).
 Definition data_bytes (stream : list byte) (d : data) : list byte :=
   match d with
-  | DS s l => firstn (Z.to_nat l) (skipn (Z.to_nat s) stream)
+  | DS ps => flat_map (fun p => firstn (Z.to_nat (snd p)) (skipn (Z.to_nat (fst p)) stream)) ps
   | DH h => unhex h
   end.
 
@@ -61,9 +61,9 @@ Definition oracle_of (script : list Z) : oracle :=
 Definition snap_ok (total : nat) (r : rd) (s : snap) : bool :=
   match r, s with
   | L4 c _, (l, cp, off, fr, m, pulled) =>
-      (Z.of_nat (length (buf c)) =? l) && (Z.of_nat (bcap c) =? cp) && (Z.of_nat (offset c) =? off) &&
+      (Z.of_nat (List.length (buf c)) =? l) && (Z.of_nat (bcap c) =? cp) && (Z.of_nat (offset c) =? off) &&
       (Z.of_nat (frozen c) =? fr) && Bool.eqb (matching c) m &&
-      (Z.of_nat (total - length (net_pending r)) =? pulled)
+      (Z.of_nat (total - List.length (net_pending r)) =? pulled)
   | _, _ => false
   end.
 
@@ -130,7 +130,7 @@ Definition step (stream : list byte) (r : rd) (orc : oracle) (op : cop) : option
   | KThrottle burst => match r with L4 c i => Some (L4 c (Thr (Z.to_nat burst) i), orc) | _ => None end
   | KTee => match r with L4 c _ => Some (wrap c (TeeW r []), orc) | _ => None end
   | KDrain bsz d =>
-      let '(ds, r', o') := drain 200000 r (Z.to_nat bsz) orc 1000 in
+      let '(ds, r', o') := drain (List.length (stream_of r) + List.length orc + 1002) r (Z.to_nat bsz) orc 1000 in
       if bytes_eqb ds (data_bytes stream d) then Some (r', o') else None
   | KSinks ds =>
       if all2 (fun s d => bytes_eqb s (data_bytes stream d)) (sinks r) ds then Some (r, orc) else None
@@ -156,5 +156,5 @@ Definition check (c : c01case) : bool :=
       let p := Z.to_nat pre in
       let sock := skipn p stream in
       let r := wrap_connection (Net sock) (firstn p stream) (Z.to_nat cap0) in
-      replay stream (length sock) r (oracle_of script) steps
+      replay stream (List.length sock) r (oracle_of script) steps
   end.
